@@ -36,6 +36,7 @@ func runC17(r *an.Run) {
 	c17EditRegions(r)
 	// the text (and so the comments) emitted for a file is that file's
 	noTransientBufferRetained(r, "R9-kept-bytes-are-not-a-window-into-a-reused-buffer")
+	snapshotKnowsTheComments(r, "R10-the-snapshot-knows-the-comments")
 }
 
 func c17NoCommentConstructed(r *an.Run) {
@@ -439,9 +440,9 @@ func c17PlusCommentsDropped(r *an.Run) {
 	r.Check(strings.HasPrefix(out, "lit:") || strings.Contains(out, "ValueReplacer"), short(f)+"|comment-groups", f.Pos(), "comment groups of the '+' pattern are replaced by a constant (got %q)", out)
 	// and that constant is the typed nil
 	good := false
-	for _, c := range an.EqCases(f, isCallOnParam(rvType, "v")) {
-		if g := an.GlobalLoaded(c.Key); g != nil && gt[g.Name()] == "*go/ast.CommentGroup" {
-			for _, in := range an.FollowJumps(c.Target).Instrs {
+	for _, arm := range typeArmsOf(r, f, gt) {
+		if arm.typ == "*go/ast.CommentGroup" {
+			for _, in := range arm.instrs() {
 				if call, ok := in.(*ssa.Call); ok && an.IsCallTo(call, "reflect.ValueOf") {
 					if mi, ok := call.Call.Args[0].(*ssa.MakeInterface); ok && an.IsNilConst(mi.X) && an.ShortType(mi.X.Type()) == "*ast.CommentGroup" {
 						good = true
